@@ -144,6 +144,17 @@ CLAIMED["C24"] = dict(
     note="Trusted: Coq kernel + vm_compute; Python arithmetic / math functions return the algebra's value when they return (hypotheses); float coercions compared to 1e-9; complex values and compound operators before lowering not covered. 2 known findings.",
     design="0.1/C24")
 
+CLAIMED["C02"] = dict(
+    technique="Coq: traced obligations den(expand_derivatives(derivative(F,w,v,cd))) = G(den F) for a derivation G (ring/field after rewriting with the derivation laws), plus an unbounded induction on expr for a Gallina model of the rule table",
+    text="The directional derivative d/dtau F(w + tau v) is specified algebraically as a derivation G of the UFL algebra (additive, Leibniz, chain rule for every function symbol, commuting with the spatial derivations) with G(w_c) = v_c, G(f) = df.v for user relations and G = 0 on all other terminals. Props/C02_gateaux.v proves by induction, for every expression of the modelled fragment, every algebra and every such derivation, den(gat e) = G(den e) (C02_gateaux_partial), and refutes the raise-or-correct half for Grad of a coefficient with a user relation. On every run the real expand_derivatives(derivative(...)) is traced for every rule x operand-dependence pattern (incl. the gp = Zero branch, Bessel orders), w scalar/vector/tensor given as whole coefficient, component, tuple, list tensor or mixed split, v an Argument or Coefficient, second derivatives, coefficient_derivatives relations and seeded nested expressions, and Coq proves every component of the result equal to G(den F) for all field values; cases that cannot be represented must raise.",
+    note="Trusted: Coq kernel + vm_compute; serializer; chain-rule laws, tan/tanh/conditional/Bessel identities are Section hypotheses (they define 'derivative' in a differential ring; the link to analysis over R was not built); ReferenceValue/ReferenceGrad, Bessel d/dnu, base-form operators, CoordinateDerivative not covered. 1 known finding.",
+    design="0.1/C02")
+CLAIMED["C04"] = dict(
+    technique="Coq: traced obligations den(expand_derivatives(diff(f,v))[v:=T]) (c++cv) = D_cv(den f[v:=T] c) plus per-case shape Examples; hand theorem C04_value instantiates the C02 induction",
+    text="The partial derivative with respect to a variable is specified as the derivation D_cv that perturbs the fresh terminal standing for the Variable node labelled v in component cv and vanishes on every other terminal. Props/C04_diff.v proves C04_value (den of the modelled rule table applied to e equals D_cv(den e) for all expressions of the fragment, algebras and such derivations) and C04_nested (other variables are differentiated through). On every run the real expand_derivatives(diff(f, v)) is traced for every scalar rule, variables of expressions, bare coefficients, scalar/vector/tensor variables, nested variables, repeated and mixed second derivatives and seeded nested expressions; Coq proves every component (c ++ cv) for every unit direction cv for all field values, and shape(diff f v) = shape f ++ shape v per case.",
+    note="Trusted: Coq kernel + vm_compute; serializer and the Python substitution of the Variable by a fresh terminal; chain-rule laws as for C02; the shape law is proved per traced case only; diff(...)[i] indexed before expansion, ReferenceValue, forms not covered.",
+    design="0.1/C04")
+
 REASON_PENDING = "model not finished in this revision; not claimed rather than claimed with a non-proof check"
 
 
